@@ -80,16 +80,50 @@ def check(tier, seed):
         viols.append({"what": f"M_conc does not predict the real outcome of {len(disagree)} schedules: impl `{h}` model `{m}`", "found_input": False, "signature": None,
                       "replay_text": "correspondence (Model/Conc.lean vs real threads under forced schedules) no longer checks; the witnesses of Props/C20.lean no longer describe the code\n"
                                      f"# impl `{h}`\n# model `{m}`\n{lines[k]}\n"})
+    # unforced real threads: thread B only clones and drops handles while thread A sends (the collector's marks are plain
+    # cells shared under `unsafe impl Sync`); the OS scheduler decides, so the outcome may differ from run to run
+    races = []
+    for _ in range(3 if tier == "quick" else 10):
+        try:
+            rc2, out2, err2 = run([HBIN, "gcrace", "2000"], stdin=b"", timeout=120)
+        except Exception as e:
+            rc2, out2, err2 = 124, "", "timeout"
+        line = next((l for l in out2.splitlines() if l.startswith("gcrace=")), f"gcrace=died rc={rc2} {err2.strip()[-160:]}")
+        races.append(line)
+    badrace = [l for l in races if not l.startswith("gcrace=ok")]
+    if badrace:
+        viols.append({"what": f"handles cloned and dropped on a second thread while the first sends ({len(badrace)} of {len(races)} runs): {badrace[0]}", "found_input": True,
+                      "signature": "gc-race:clone-drop-vs-collect",
+                      "replay_text": "# harness gcrace 2000: thread B clones and drops handles of a 100-stage chain (no transaction, no send) while thread A sends 2000 events;\n"
+                                     "# not a forced schedule: repeat if the race does not show\n# outcome: " + badrace[0] + "\ngcrace 2000\n"})
+    # every handle type must be Send + Sync
+    try:
+        rc3, out3, err3 = run([HBIN, "api"], stdin=b"sendsync\n", timeout=60)
+    except Exception as e:
+        rc3, out3, err3 = 124, "", "timeout"
+    ss_line = out3.strip().splitlines()[0] if out3.strip() else f"no answer (rc={rc3})"
+    if ss_line != "sendsync=ok":
+        viols.append({"what": f"not every handle type is Send + Sync: {ss_line}", "found_input": True, "signature": "sendsync:" + ss_line,
+                      "replay_text": "# harness api, op `sendsync`: " + ss_line + "\nsendsync\n"})
     bad = sum(1 for k, (scn, sends, sc) in enumerate(meta) if classify(scn, sends, hl[k] if k < len(hl) else "") != "ok")
     cov = {"evaluations": len(lines), "distinct_nontrivial": len({tuple(sc) for sc in scheds if 0 in sc and 1 in sc}),
            "rule": "schedules = every (a,b,c) block schedule `0^a 1^b 0^c` (then lowest unfinished thread) plus random schedules, for three scenarios (two threads on distinct sinks / on the same sink / two sends vs one); each forced on real threads with a baton at the library's schedule points and predicted by M_conc; non-trivial = both threads appear in the schedule",
            "samples": [lines[0], lines[len(lines) // 2]],
            "correspondence": {"level": "forced schedules (harness conc) vs M_conc", "schedules": len(lines), "model_vs_impl_disagreements": len(disagree),
-                              "schedules_violating_C20_on_impl": bad, "violation_classes": sorted(classes.keys())}}
+                              "schedules_violating_C20_on_impl": bad, "violation_classes": sorted(classes.keys())},
+           "unforced_thread_runs": races, "send_sync": ss_line}
     return {"coverage": cov, "violations": viols, "summary": f"schedules={len(lines)} model_disagreements={len(disagree)} violating={bad} classes={sorted(classes.keys())}"}
 
 
 def replay(path):
+    raw = [l.strip() for l in open(path) if l.strip() and not l.startswith("#")]
+    if any(l.startswith("gcrace") for l in raw):
+        rc, out, err = run([HBIN, "gcrace"] + raw[0].split()[1:], stdin=b"", timeout=120)
+        print(out.strip() or f"died rc={rc} {err.strip()[-200:]}")
+        return 0 if out.strip().startswith("gcrace=ok") else 1
+    if raw == ["sendsync"]:
+        rc, out, err = run([HBIN, "api"], stdin=b"sendsync\n", timeout=60)
+        print(out.strip()); return 0 if out.strip() == "sendsync=ok" else 1
     ls = [l.strip() for l in open(path) if l.strip().startswith("conc")]
     text = "\n".join(ls) + "\n"
     hl, ml, rc, herr = run_pair("conc", text)
